@@ -96,16 +96,26 @@ prop("C16", level="exploration",
 
 _BND_NOTE = "Bounded only for the pipeline-level claim; reference semantics written from the property text. "
 _BND_TECH = "contract-based verification of the functions within reach (see evidence) + bounded stand-in: real entry points on generated project trees against a reference statement of the property"
-prop("C02", level="exploration",
-     level_text="Bounded exploration of the real scanner: every statement-list position of the running interpreter's grammar (read from the ast node classes, fail-closed on unknown ones) "
-                "x 19 import forms, compared edge by edge with the importees each statement names (both inclusions).",
-     level_note=_BND_NOTE + "ast.parse trusted.", technique=_BND_TECH, explanation="import statements vs edges on generated sources",
-     roots=[], bounded=[_b("projects", "bounded_import_edges")], trusted_base=_TB)
-prop("C04", level="exploration",
-     level_text="Bounded exploration: random directory trees scanned with the real entry points; modules, hierarchy and imports compared with the tree; sub-directory scans compared with the "
-                "restriction of the whole-root scan; module-object entry point compared with the path entry point.",
-     level_note=_BND_NOTE + "Input validity: no x.py next to a directory x, component names without '.'.", technique=_BND_TECH,
-     explanation="scan mirrors the directory tree", roots=[], bounded=[_b("projects", "bounded_tree_mirror")], trusted_base=_TB)
+prop("C02", level="other",
+     level_text="Mixed. PROVED (string view): ImportConverter.convert yields exactly the imports of the import statements nested at ANY depth in ANY statement list (statements, except "
+                "handlers, match cases in any field) of the scanned files -- worklist invariant for unbounded nesting under the statement-tree unfolding schema; ImportConverter._convert: one "
+                "import per alias of 'import a.b.c [as x]', 'from P import n' names P.n when that is a scanned module and P otherwise, relative forms per alias with the same sub-module "
+                "preference; _adjust_with_root_prefix; get_parent_modules = dotted ancestors. BOUNDED: what ast.parse / ast.iter_child_nodes deliver for each grammar position, relative-import "
+                "resolution (rel_importee) and the composition down to graph edges: every statement-list position of the running interpreter's grammar x 24 import forms, all edges of every scan.",
+     level_note="Assumed: ast node fields, ast.iter_child_nodes returns the directly nested statement-like nodes of every field, RelativeImport's importee function. " + _BND_NOTE + "ast.parse trusted.",
+     technique=_BND_TECH, explanation="import statements vs edges", roots=["ImportConverter.convert", "ImportConverter._convert", "ImportConverter._adjust_with_root_prefix", "get_parent_modules"],
+     bounded=[_b("projects", "bounded_import_edges")], trusted_base=_TB)
+prop("C04", level="other",
+     level_text="Mixed. PROVED (string view): Parser.parse registers exactly one module per non-excluded directory and per non-excluded .py file reached from module_path through non-excluded "
+                "directories (worklist invariant for unbounded trees and ANY enumeration order, under the tree-unfolding schema); _parse_file / _file_should_be_parsed; get_parent_modules = "
+                "dotted ancestors; _get_internal_module_prefix, _get_all_internal_modules, _adjust_with_root_prefix (both import spellings). BOUNDED: module naming from paths, graph construction "
+                "(nodes, hierarchy edges), sub-directory scan = restriction of the whole-root scan (also sibling scans in fresh processes), module-object entry point: random directory trees "
+                "through the real entry points.",
+     level_note="Assumed: pathlib (is_dir, iterdir, resolve as identity, suffix, str), open/read, ast.parse, Parser._get_module_name as the function mod_name. " + _BND_NOTE +
+                "Input validity: no x.py next to a directory x, component names without '.'.",
+     technique=_BND_TECH, explanation="scan mirrors the directory tree",
+     roots=["Parser.parse", "Parser._parse_file", "Parser._file_should_be_parsed", "get_parent_modules", "_get_internal_module_prefix", "_get_all_internal_modules", "ImportConverter._adjust_with_root_prefix"],
+     bounded=[_b("projects", "bounded_tree_mirror")], trusted_base=_TB)
 prop("C08", level="proof",
      level_text="Proved (string view): convert_partial_match_to_regex returns exactly ('.*' if leading *) + re.escape(text) + ('.*' if trailing * else '$'), and for EVERY literal text the four "
                 "shapes denote equality / suffix / prefix / substring under re.match (lemmas glob_shape_*; all strings, not only short ones). Bounded: the conversion is also run exhaustively on "
